@@ -1029,7 +1029,10 @@ func ruleEncPaths(p *Prog, r *Out) {
 		return
 	}
 	rfcBits := map[int64]int64{0x80: 7, 0x40: 6, 0x00: 4, 0x10: 4, 0x20: 5}
-	type verdict struct{ ok bool; msg, pos string }
+	type verdict struct {
+		ok       bool
+		msg, pos string
+	}
 	results := map[string]verdict{}
 	for _, st := range paths {
 		// split optional size-update prefix
